@@ -74,10 +74,15 @@ pub struct Output {
     pub cwes: Vec<u32>,
 }
 
-pub const ADDRS: u8 = 3;
+/// upper bound of the address pool (ordinary scenarios use 3 addresses, bursts up to 11)
+pub const ADDRS: u8 = 12;
 
 pub fn gen(seed: u64) -> Scenario {
     let mut r = Rng::new(seed);
+    // bursts: few producers, many messages for few addresses (a fixpoint re-emitting its warnings
+    // round after round); ordinary scenarios: up to 4 producers, up to 12 messages, 3 addresses
+    let burst = r.chance(6);
+    let pool = if burst { r.range(3, 11) } else { 3 };
     let mut id = 0u32;
     let mut sent: Vec<(u32, Kind)> = Vec::new();
     let dup_rate = *r.pick(&[0u64, 0, 15, 40]);
@@ -90,20 +95,20 @@ pub fn gen(seed: u64) -> Scenario {
         }
         let kind = match r.below(10) {
             0..=3 => Kind::Gen,
-            4..=5 => Kind::Loc(r.below(ADDRS as u64) as u8),
+            4..=5 => Kind::Loc(r.below(pool) as u8),
             _ => Kind::Cwe(
-                r.below(ADDRS as u64) as u8,
-                if r.chance(40) { Some(r.below(ADDRS as u64) as u8) } else { None },
+                r.below(pool) as u8,
+                if r.chance(40) { Some(r.below(pool) as u8) } else { None },
             ),
         };
         sent.push((id, kind.clone()));
         Msg { id, content: id, kind, yields: if r.chance(25) { r.range(1, 2) as u8 } else { 0 } }
     };
-    let np = r.below(5) as usize; // 0..=4 producers
-    let mut budget = 12usize;
+    let np = if burst { r.range(1, 2) as usize } else { r.below(5) as usize };
+    let mut budget = if burst { r.range(33, 72) as usize } else { 12usize };
     let mut producers = Vec::new();
     for _ in 0..np {
-        let n = (r.below(5) as usize).min(budget);
+        let n = if burst { (budget / np).max(1) + r.below(4) as usize } else { r.below(5) as usize }.min(budget);
         budget -= n;
         producers.push((0..n).map(|_| mk(&mut r)).collect());
     }
